@@ -25,7 +25,8 @@ Definition model_obs (h : heap) (m : nat) : mobs :=
   match m_fit mo with
   | None => mkObs (m_terms mo) cur 0 false
   | Some (d, kn) => mkObs (m_terms mo) cur d
-                      (list_eqb onat_eqb (mask h d (m_terms mo) kn) (map (fun _ => Some d) (m_terms mo)) &&
+                      (list_eqb onat_eqb (mask h d (m_terms mo) kn)
+                                 (mask h d (m_terms mo) (match fresh_fit h d (m_terms mo) with Some (_, l) => l | None => [] end)) &&
                        list_eqb onat_eqb (mask h d (m_terms mo) cur) (mask h d (m_terms mo) kn))
   end.
 
